@@ -400,6 +400,58 @@ def run_stock_logger_scenario(sc):
             "prevOK": sys.getprofile() is before, "flushes": store.adds, "escaped": escaped}
 
 
+RUNCLI_PROG = '''import os, pickle, sys
+
+
+class Point:
+    def __init__(self, x):
+        self.x = x
+
+
+def work(n):
+    return [Point(i).x for i in range(n)]
+
+
+if __name__ == "__main__":
+    import __main__
+    out = []
+    out.append("argv0:" + os.path.basename(sys.argv[0]))
+    out.append("args:" + ",".join(sys.argv[1:]))
+    out.append("main_is_me:" + str(getattr(__main__, "Point", None) is Point))
+    try:
+        out.append("pickle:" + str(pickle.loads(pickle.dumps(Point(3))).x))
+    except Exception as e:
+        out.append("pickle:" + type(e).__name__)
+    out.append("work:" + str(sum(work(4))))
+    out.append("name:" + __name__)
+    out.append("path0_is_here:" + str(os.path.realpath(sys.path[0] or ".") == os.path.realpath(os.path.dirname(os.path.abspath(__file__)))))
+    print("|".join(out))
+    sys.exit(3 if "fail" in sys.argv else 0)
+'''
+
+
+def run_cli_scenario(sc):
+    """`python prog.py args` / `python -m prog args` against `monkeytype run prog.py args` / `monkeytype run -m prog args`: the
+    program (which looks at sys.argv, __main__, pickling of its own classes, its exit status) must not be able to tell."""
+    import subprocess
+    d = tlc.scratch_dir("mtverif_runcli_")
+    try:
+        with open(os.path.join(d, "prog.py"), "w") as fh:
+            fh.write(RUNCLI_PROG)
+        env = dict(os.environ, PYTHONPATH=core.REPO, MT_DB_PATH=os.path.join(d, "t.sqlite3"))
+        env.pop("MONKEYTYPE_TRACE_MODULES", None)
+        tail = ["-m", "prog"] if sc["mode"] == "module" else ["prog.py"]
+        args = list(sc["args"])
+        pu = subprocess.run([sys.executable] + tail + args, cwd=d, env=env, capture_output=True, text=True, timeout=120)
+        pt = subprocess.run([sys.executable, "-m", "monkeytype", "run"] + tail + args, cwd=d, env=env, capture_output=True, text=True, timeout=120)
+        obsU = [pu.stdout.strip(), "rc:%d" % pu.returncode]
+        obsT = [pt.stdout.strip(), "rc:%d" % pt.returncode]
+    finally:
+        import shutil
+        shutil.rmtree(d, ignore_errors=True)
+    return {"tid": sc["tid"], "kind": "runcli", "hooks": [], "obsU": obsU, "obsT": obsT, "prevOK": True, "flushes": 1, "escaped": "NONE"}
+
+
 def _run_chunk(chunk):
     _setup()
     import logging
@@ -411,7 +463,8 @@ def _run_chunk(chunk):
     out = []
     for sc in chunk:
         out.append(run_hook_scenario(sc) if sc["type"] == "hooks" else run_ambient_scenario(sc) if sc["type"] == "ambient"
-                   else run_stock_logger_scenario(sc) if sc["type"] == "stock" else run_life_scenario(sc))
+                   else run_stock_logger_scenario(sc) if sc["type"] == "stock" else run_cli_scenario(sc) if sc["type"] == "runcli"
+                   else run_life_scenario(sc))
     return out
 
 
@@ -475,6 +528,12 @@ def main(pid, tier, seed, replay=None):
             scs.append({"type": "stock", "calls": calls})
         plan.append({"family": "the stock CallTraceStoreLogger over a counting store, 1 .. many traced calls in one block: one "
                                "write, at the end", "scenarios": len(scs) - n0})
+        n0 = len(scs)
+        for mode in ("script", "module"):
+            for args in ([], ["a", "--b"], ["fail"]):
+                scs.append({"type": "runcli", "mode": mode, "args": args})
+        plan.append({"family": "`monkeytype run [-m] prog args` against `python [-m] prog args`: argv, __main__, pickling of the "
+                               "program's own classes, sys.path[0], exit status", "scenarios": len(scs) - n0})
         for i, s in enumerate(scs):
             s["tid"] = i + 1
     records = run_all(scs)
@@ -497,6 +556,8 @@ def main(pid, tier, seed, replay=None):
                     if sc["type"] == "hooks" and sc["role"] in ("global_other",):
                         vio["function_kind"] = sc["kind"]
                     run.violation(vio, {k: v2 for k, v2 in sc.items() if k != "tid"})
+            elif sc["type"] == "runcli":
+                run.violation({"clause": clause, "run_cli": sc["mode"]}, {k: v2 for k, v2 in sc.items() if k != "tid"})
             elif sc["type"] == "stock":
                 run.violation({"clause": clause, "stock_logger_calls": sc["calls"]}, {k: v2 for k, v2 in sc.items() if k != "tid"})
             elif sc["type"] == "ambient":
